@@ -39,6 +39,7 @@
  "assumes": ["bit array capped at 2^20 bits (object-size cap); geometry, contents, search range and the 8 byte-misalignments of the array otherwise symbolic",
              "pointer-to-integer cast as modelled by CBMC (object base 8-aligned, low bits = offset)"],
  "backend": "cadical",
+ "defines": ["BA_MAX_BITS=512"],
  "timeout": 600,
  "native": true
 }
@@ -57,8 +58,25 @@
  "assumes": ["bit array capped at 2^20 bits (object-size cap); geometry, contents, search range and the 8 byte-misalignments of the array otherwise symbolic",
              "pointer-to-integer cast as modelled by CBMC (object base 8-aligned, low bits = offset)"],
  "backend": "cadical",
+ "defines": ["BA_MAX_BITS=512"],
  "timeout": 600,
  "native": true
+}
+*/
+/* VERIF-UNIT
+{
+ "name": "x_probe_ffz",
+ "props": ["C16"],
+ "level": "U",
+ "tier": "wip",
+ "harness": "h_ba_ffz",
+ "enforce": ["ba_find_first_zero"],
+ "loop_contracts": true,
+ "sources": ["lib/ext2fs/bitops.c"],
+ "defines": ["BA_PROBE_FIXED=64", "BA_PROBE_MIS=0"],
+ "backend": "cadical",
+ "timeout": 600,
+ "native": false
 }
 */
 #include "ba_env.h"
